@@ -874,9 +874,20 @@ func init() {
 		i.ps.sched.block(fr, func() bool { return w.n == 0 }, "WaitGroup.Wait")
 		return nil
 	})
+	// sync.Pool: a pool may drop or return anything that was Put.  For pools whose New function
+	// belongs to the code under test both behaviours are explored (recycled object first);
+	// pools of library code always allocate (their recycling is not the subject).
 	reg("(*sync.Pool).Get", func(i *interpreter, fr *frame, fn *ssa.Function, a []value) value {
-		st := (*a[0].(*value)).(structure)
+		cell := a[0].(*value)
+		st := (*cell).(structure)
 		nf := st[len(st)-1]
+		if items := i.ps.pools[cell]; len(items) > 0 {
+			if i.choose(2, "sync.Pool.Get") == 0 {
+				it := items[len(items)-1]
+				i.ps.pools[cell] = items[:len(items)-1]
+				return it
+			}
+		}
 		switch f := nf.(type) {
 		case *ssa.Function:
 			if f == nil {
@@ -885,7 +896,24 @@ func init() {
 		}
 		return callIn(i, fr, fr.g, token.NoPos, nf, nil)
 	})
-	reg("(*sync.Pool).Put", func(i *interpreter, fr *frame, fn *ssa.Function, a []value) value { return nil })
+	reg("(*sync.Pool).Put", func(i *interpreter, fr *frame, fn *ssa.Function, a []value) value {
+		cell := a[0].(*value)
+		st := (*cell).(structure)
+		own := false
+		switch f := st[len(st)-1].(type) {
+		case *ssa.Function:
+			own = f != nil && f.Pkg != nil && strings.HasPrefix(f.Pkg.Pkg.Path(), desyncPath)
+		case *closure:
+			own = f.Fn.Pkg != nil && strings.HasPrefix(f.Fn.Pkg.Pkg.Path(), desyncPath)
+		}
+		if own {
+			if i.ps.pools == nil {
+				i.ps.pools = map[*value][]value{}
+			}
+			i.ps.pools[cell] = append(i.ps.pools[cell], a[1])
+		}
+		return nil
+	})
 
 	// sync/atomic free functions operate on cells
 	for _, T := range []string{"Int32", "Int64", "Uint32", "Uint64", "Uintptr", "Pointer"} {
